@@ -148,7 +148,8 @@ func (c *Config) Validate() error {
 		return fmt.Errorf("%w: Compaction levels must be positive", ErrInvalidConfig)
 	}
 
-	if c.CompactionRatio <= 1.0 {
+	// Written as a negated > so that NaN is rejected as well
+	if !(c.CompactionRatio > 1.0) {
 		return fmt.Errorf("%w: Compaction ratio must be greater than 1.0", ErrInvalidConfig)
 	}
 
